@@ -64,6 +64,7 @@ type c19Case struct {
 	Corr        string
 	DInit, DMax time.Duration
 	DNum, DDen  int
+	Settle0     string // "" | nack: the message has been settled by somebody else before it reaches the chain (Ack in the chain is then without effect, nothing else changes)
 }
 
 func runC19(c *Ctx) error {
@@ -120,6 +121,20 @@ func runC19(c *Ctx) error {
 			cases = append(cases, c19Case{Chain: ch, Script: sc, NCalls: 1 + (ci+si)%3, Corr: corr, DInit: dl.i, DMax: dl.m, DNum: dl.n, DDen: dl.d})
 		}
 	}
+	// a message that was nacked before it reaches the chain (an outer party gave the delivery up): chains with InstantAck behave as ever
+	for ci, ch := range chains[:n2] {
+		has := false
+		for _, m := range ch {
+			has = has || m == "InstantAck"
+		}
+		if !has {
+			continue
+		}
+		for si, sc := range scripts {
+			dl := delays[(ci+si)%len(delays)]
+			cases = append(cases, c19Case{Chain: ch, Script: sc, NCalls: 1 + (ci+si)%2, Corr: "c0", DInit: dl.i, DMax: dl.m, DNum: dl.n, DDen: dl.d, Settle0: "nack"})
+		}
+	}
 	// DelayOnError on long failure sequences with fractional multipliers
 	for _, dl := range delays {
 		cases = append(cases, c19Case{Chain: []string{"DelayOnError"}, Script: scripts[4], NCalls: 7, Corr: "c0", DInit: dl.i, DMax: dl.m, DNum: dl.n, DDen: dl.d})
@@ -128,9 +143,13 @@ func runC19(c *Ctx) error {
 	runs := make([]*tr.Run, len(cases))
 	for i, cs := range cases {
 		cls := fmt.Sprintf("chain%d", len(cs.Chain))
-		runs[i] = T.NewRun(cls, map[string]any{"chain": cs.Chain, "script": cs.Script, "corr": cs.Corr,
+		s0 := "none"
+		if cs.Settle0 != "" {
+			s0 = cs.Settle0
+		}
+		runs[i] = T.NewRun(cls, map[string]any{"chain": cs.Chain, "script": cs.Script, "corr": cs.Corr, "settle0": s0,
 			"cfg": map[string]any{"dInit": int64(cs.DInit / time.Microsecond), "dMax": int64(cs.DMax / time.Microsecond), "dNum": cs.DNum, "dDen": cs.DDen, "retries": 2}})
-		runs[i].Key = fmt.Sprintf("%v|%v|%d", cs.Chain, cs.Script, cs.NCalls)
+		runs[i].Key = fmt.Sprintf("%v|%v|%d|%s", cs.Chain, cs.Script, cs.NCalls, cs.Settle0)
 	}
 	Parallel(len(cases), func(i int) { c19Run(runs[i], cases[i]) })
 	c.AddStat("algebra_cases", len(cases))
@@ -189,7 +208,11 @@ func c19Build(name string, cs c19Case) message.HandlerMiddleware {
 	case "Recoverer":
 		return middleware.Recoverer
 	case "IgnoreErrors":
-		return middleware.NewIgnoreErrors([]error{c19E1}).Middleware
+		// the list belongs to the caller, who goes on using it (to configure the next middleware, say)
+		errs := []error{c19E1}
+		ig := middleware.NewIgnoreErrors(errs)
+		errs[0] = c19E2
+		return ig.Middleware
 	case "InstantAck":
 		return middleware.InstantAck
 	case "Throttle":
@@ -324,6 +347,9 @@ func c19Run(r *tr.Run, cs c19Case) {
 	msg := message.NewMessage(fmt.Sprintf("r%d", r.ID), []byte("p"))
 	if cs.Corr != "" {
 		middleware.SetCorrelationID(cs.Corr, msg)
+	}
+	if cs.Settle0 == "nack" {
+		msg.Nack()
 	}
 	for j := 0; j < cs.NCalls; j++ {
 		r.Emit("call")
